@@ -15,6 +15,8 @@ check with the recorded `randperm` / `randint` results.
 -/
 import QV.Model.Batching
 import QV.Lemmas.Batching
+import QV.Model.CallForm
+import QV.Lemmas.CallForm
 
 namespace QV.Props
 namespace C07
@@ -580,6 +582,36 @@ theorem C07_no_mutation {ρ : Type} (h : Heap ρ) (dataId : Nat) (basesId : Opti
     rw [mem_viewsOf h3]
     simp only [List.length_append, List.length_cons, List.length_nil]
     omega
+
+/-! ## Hardening round 4: call forms (positional arguments in the documented order) -/
+
+/-- **C07.9 (call forms)** `state.fit(a₁, …, a_j, **kw)` with the first `j` documented parameters given POSITIONALLY (in the documented
+order `data, epochs, pos_batch_size, neg_batch_size, k, lr[, input_bases], progbar, starting_epoch, time, callbacks, optimizer,
+optimizer_args, scheduler, scheduler_args`; `ps₁` = those `j` names, any split of the signature) binds exactly what the keyword call
+`state.fit(**{ps₁[i]: aᵢ}, **kw)` binds; each positional value reaches the parameter documented at its position — so the batch sizes
+/ number of epochs / bases the batching theorems (`C07_fit_epoch`) speak about are the values the caller wrote at the documented
+positions — and every other parameter has the caller's keyword of that name, else the documented default. For all three state
+types (`hasBases = false`: `PositiveWaveFunction`, which trains without bases whatever the caller passes). -/
+theorem C07_positional_call (hasBases : Bool) (ps₁ ps₂ : List String) (hsig : CallForm.fitParams hasBases = ps₁ ++ ps₂)
+    (vs₁ : List CallForm.Arg) (hlen : vs₁.length = ps₁.length) (kw : List (String × CallForm.Arg))
+    (hkw : ∀ p ∈ ps₁, CallForm.kwLookup kw p = none) :
+    CallForm.fitBind hasBases vs₁ kw = CallForm.fitBind hasBases [] (ps₁.zip vs₁ ++ kw)
+    ∧ ∀ r, CallForm.fitBind hasBases vs₁ kw = .ok r →
+        (∀ p v, (p, v) ∈ ps₁.zip vs₁ → CallForm.bound r p = some v)
+        ∧ (∀ p ∈ ps₂, CallForm.bound r p = CallForm.kwOrDefault CallForm.fitDefault kw p)
+        ∧ (hasBases = false → CallForm.bound r "input_bases" = some CallForm.Arg.none) :=
+  CallForm.fitBind_positional hasBases ps₁ ps₂ hsig vs₁ hlen kw hkw
+
+/-- the positional form documented for the positive state: `fit(data, 2, 4, 3, 1, lr = …)` trains with `epochs = 2`,
+`pos_batch_size = 4`, `neg_batch_size = 3`, `k = 1` (and never with bases) -/
+example : (CallForm.fitBind false [.ref 7, .int 2, .int 4, .int 3, .int 1] [("lr", .ref 9)]).toOption.map
+      (fun r => (CallForm.bound r "epochs", CallForm.bound r "pos_batch_size", CallForm.bound r "neg_batch_size", CallForm.bound r "k",
+        CallForm.bound r "lr", CallForm.bound r "input_bases"))
+    = some (some (.int 2), some (.int 4), some (.int 3), some (.int 1), some (.ref 9), some .none) := by rfl
+
+/-- a keyword repeating a positionally bound parameter is refused; too many positional arguments are refused -/
+example : CallForm.fitBind true [.ref 7, .int 2] [("epochs", .int 5)] = .error .TypeError := by rfl
+example : CallForm.fitBind false (List.replicate 15 (.int 1)) [] = .error .TypeError := by rfl
 
 /-! ## Non-vacuity -/
 
